@@ -18,14 +18,15 @@ LEVEL_TEXT = ("Coq theorems: the six rounding decision tables regenerated from f
               "stand-in, the three alignment branches, the three re-alignment cases of repr_round_sum, the zero and equal-exponent "
               "paths, the four FBig operator bodies) returns for ALL bases, modes, precisions, signs, exponent gaps and operands that fit "
               "the precision the specification rounding of the exact sum at a digit position keeping p or p+1 digits (C03_add, C03_sub, "
-              "C03_add_operator_forms), which is the documented contract clause by clause (C03_rounded_sum_is_the_contract); every "
+              "C03_add_operator_forms), which is the documented contract clause by clause (C03_rounded_sum_is_the_contract); the as-is "
+              "model of sqrt (float/src/root.rs) rounds the integer root of the exactly scaled radicand once, in the direction the mode "
+              "names, to exactly p digits, for every non-negative operand that fits (C03_sqrt, C03_sqrt_round_is_the_contract); every "
               "implementation answer of add/sub/mul/div/sqrt/sqr/cubic/inv and of the FBig operators is decided by the extracted contract "
               "checker against the exact rational / square-root result, and compared with the as-is models.")
 LEVEL_NOTE = ("Trusted: Coq kernel, translator (round_low_part bodies), extraction + FastZ.v, zarith, harness. The hand-written models of "
               "add.rs / mul.rs / div.rs / repr.rs are tied to the code by the correspondence run (model fidelity is measured and must be "
               "100%). The digit estimate digits_ub (f32 log2 bounds) is abstract: the addition theorems hold for every estimate that is "
-              "not below the true digit count. sqrt is modelled and compared, its universal theorem is not proved (every case is decided "
-              "by the checker). IBig arithmetic under the float layer is taken as Z (that is C01/C02's claim).")
+              "not below the true digit count. IBig arithmetic under the float layer is taken as Z (that is C01/C02's claim).")
 TECHNIQUE = "Coq proof (rounding tables regenerated from source, contract theorems) + extracted contract checker on a correspondence run"
 RULE = ("cases = op x base {2,3,8,10,16,36} x six modes x precision {1..5, 7, 10, 17, 24, 53, 64, 100 (1000+ thorough)} x operand "
         "shapes: significand digit counts {1, 2, p-1, p}, exponent gaps {0, 1, p-d, p, p+1, p+2, just beyond / far beyond the "
